@@ -129,6 +129,7 @@ func ruleMemo(c *Ctx) {
 		}
 	}
 	c.atLeast("memo cache stores", n, 2)
+	memoPairs(c)
 
 	// KEY: the caches live as long as the Interpreter, across Execute calls with different configurations. A
 	// function that fills one must therefore not let the cached value depend on per-run configuration (any field
@@ -178,6 +179,146 @@ func ruleMemo(c *Ctx) {
 		c.check(len(deps) == 0, "memo-key:"+fnKey(fn), fn.Pos(), "the cached value depends on the key only (no per-run configuration is read while computing it)", fnKey(fn)+" reads per-run configuration ("+strings.Join(deps, ", ")+") while computing a value it caches for the lifetime of the Interpreter: a later Execute with a different configuration is served the entry computed under the earlier one")
 	}
 	c.atLeast("functions that fill a memo cache", nKey, 2)
+}
+
+// memoPairs: one-entry memos. A function that answers from a field V of the interpreter when its argument equals a
+// field K (`if arg == p.K { return p.V }`) makes (K, V) a key/value pair: wherever V is stored, K must be stored for the
+// same computation on every path that goes on to return - otherwise a later call with the old key is answered with
+// the new value.
+func memoPairs(c *Ctx) {
+	type pair struct{ k, v *types.Var }
+	var pairs []pair
+	seenPair := map[pair]bool{}
+	fns := c.srcFuncs("interp")
+	for _, fn := range fns {
+		for _, b := range fn.Blocks {
+			if len(b.Instrs) == 0 {
+				continue
+			}
+			ret, ok := b.Instrs[len(b.Instrs)-1].(*ssa.Return)
+			if !ok {
+				continue
+			}
+			for _, r := range retResults(ret) {
+				if isErrorType(r.Type()) {
+					continue
+				}
+				vf, vx := loadedField(r)
+				if vf == nil || vx == nil || !isInterp(vx.Type()) {
+					continue
+				}
+				// a dominating test `param == p.K` whose true edge leads here
+				for _, g := range fn.Blocks {
+					if len(g.Instrs) == 0 || !g.Dominates(b) || g == b {
+						continue
+					}
+					ifi, ok := g.Instrs[len(g.Instrs)-1].(*ssa.If)
+					if !ok {
+						continue
+					}
+					bo, ok := ifi.Cond.(*ssa.BinOp)
+					if !ok || bo.Op != token.EQL || reachableAvoiding(g.Succs[1], g)[b] {
+						continue
+					}
+					for _, sides := range [][2]ssa.Value{{bo.X, bo.Y}, {bo.Y, bo.X}} {
+						if _, isParam := sides[0].(*ssa.Parameter); !isParam {
+							continue
+						}
+						kf, kx := loadedField(sides[1])
+						if kf == nil || kx == nil || !isInterp(kx.Type()) || kf == vf {
+							continue
+						}
+						p := pair{kf, vf}
+						if !seenPair[p] {
+							seenPair[p] = true
+							pairs = append(pairs, p)
+						}
+					}
+				}
+			}
+		}
+	}
+	if len(pairs) == 0 {
+		c.ok("memo-pair", token.NoPos, "no function of the interpreter answers from a field when its argument equals another field (no one-entry memo)")
+		return
+	}
+	for _, p := range pairs {
+		for _, role := range []struct{ a, b *types.Var }{{p.v, p.k}, {p.k, p.v}} {
+			for _, fn := range fns {
+				for _, b := range fn.Blocks {
+					for _, in := range b.Instrs {
+						st, ok := in.(*ssa.Store)
+						if !ok {
+							continue
+						}
+						f, x := fieldOfAddr(st.Addr)
+						if f != role.a || x == nil || !isInterp(x.Type()) {
+							continue
+						}
+						if isNilConst(st.Val) {
+							continue // clearing the memo
+						}
+						if k, ok := st.Val.(*ssa.Const); ok && k.Value != nil && k.Value.ExactString() == `""` {
+							continue
+						}
+						stores := func(blk *ssa.BasicBlock) bool {
+							for _, i2 := range blk.Instrs {
+								if s2, ok := i2.(*ssa.Store); ok {
+									if f2, x2 := fieldOfAddr(s2.Addr); f2 == role.b && x2 != nil && isInterp(x2.Type()) {
+										return true
+									}
+								}
+							}
+							return false
+						}
+						okPair := stores(b)
+						if !okPair {
+							// stored earlier on every path to here
+							for _, d := range fn.Blocks {
+								if d != b && d.Dominates(b) && stores(d) {
+									okPair = true
+								}
+							}
+						}
+						if !okPair {
+							// every path from here to a return passes a store of the partner
+							seen := map[*ssa.BasicBlock]bool{}
+							escaped := false
+							var walk func(x *ssa.BasicBlock)
+							walk = func(x *ssa.BasicBlock) {
+								if seen[x] || escaped {
+									return
+								}
+								seen[x] = true
+								if stores(x) {
+									return
+								}
+								if len(x.Instrs) > 0 {
+									if _, isRet := x.Instrs[len(x.Instrs)-1].(*ssa.Return); isRet {
+										escaped = true
+										return
+									}
+								}
+								for _, su := range x.Succs {
+									walk(su)
+								}
+							}
+							for _, su := range b.Succs {
+								walk(su)
+							}
+							if len(b.Succs) == 0 {
+								escaped = true
+							}
+							okPair = !escaped
+						}
+						key := "memo-pair:" + fnKey(fn) + ":" + role.a.Name() + "/" + role.b.Name()
+						c.check(okPair, key, in.Pos(), "p."+role.a.Name()+" is stored together with p."+role.b.Name()+" on every path",
+							fnKey(fn)+" stores p."+role.a.Name()+" on a path that returns without storing p."+role.b.Name()+": the one-entry memo (answer p."+p.v.Name()+" when the argument equals p."+p.k.Name()+") then pairs a key with a value computed for a different key, so a later call with the old key gets the wrong answer")
+					}
+				}
+			}
+		}
+	}
 }
 
 func memoSame(v ssa.Value, set []ssa.Value) bool {
